@@ -330,6 +330,9 @@ class _TableMutant(Mutant):
 
 
 MUTANTS = [
+    Mutant('single-antenna-ls-shortcut-on-one-pilot-element', 'pyphysim/channel_estimation/estimators.py', 'compute_ls_estimation',
+           [('regex', r'(        assert s\.ndim == 2\n)', r'\1        if s.shape[0] == 1:\n            return Y_p @ s.T.conj() / (np.abs(s[0, 0]) ** 2 * s.shape[1])\n')],
+           r'C18\.h:compute_ls_estimation:ls-identity'),
     Mutant('normalize-flag-tested-by-truthiness-in-the-sequence', SRS, 'UeSequence.__init__',
            [('replace', 'if normalize is True:', 'if normalize:')], r'C18\.g:UeSequence\.__init__:flag:'),
     _TableMutant('revert-fix-table-stops-at-1009', RS, '_SMALL_PRIME_LIST', [('table', r'1009,\s*1013,[\s\d,]*?1201\n', '1009\n')],
